@@ -14,7 +14,7 @@ ID, TITLE, LEVEL = 'C17', 'I/O failures are reported', 'fault_enumeration'
 RULE = ('case = one file x backend {local counting file, fake blob client}; for every read method a fault-free run '
         'records the n range reads it issues and its true result, then for EVERY position k < n and every fault kind '
         '{exception, short read (half), short read (length-1), empty read} the call is repeated on a fresh reader with '
-        'that single fault (pairs of faults: all pairs when n <= 8, sampled above; construction-time faults incl. '
+        'that single fault, and after a failed call the same call (and the other header / trace accessors) is repeated fault-free on the SAME reader (pairs of faults: all pairs when n <= 8, sampled above; construction-time faults incl. '
         'preload enumerated the same way); blob backend additionally under seeded permutations of request completion '
         'order. A result must be an exception or exactly the true result. distinct = (file, op, position, kind); '
         'non-trivial = the fault was actually injected (monitor counter)')
@@ -86,6 +86,9 @@ def op_list(sp, rng):
                ('read_subvolume', (1, nI, 0, nX - 1, 1, nZ)), ('get_trace', (sp.ntr - 1,)), ('get_trace', (0, 1, min(nZ, 6))),
                ('read_correlated_diagonal', (0,)), ('read_anticorrelated_diagonal', (nX - 1,)),
                ('gen_trace_header', (sp.ntr // 2,)), ('gen_trace_header', (0,), {'load_all_headers': True})]
+        if sp.ntr != sp.grid_traces:
+            # irregular: traces after the holes (compact ordinal != grid position)
+            ops += [('gen_trace_header', (sp.ntr - 1,)), ('gen_trace_header', (sp.ntr - 2,), {'load_all_headers': True})]
     for k in sp.stored[:2]:
         ops.append(('get_tracefield_values', (k,)))
     return ops
@@ -191,7 +194,7 @@ def run_case(case, ctx):
         ops = [('read_crossline', (3,)), ('read_zslice', (5,))]
     bad = []
     counters = {'injections': 0, 'fault_runs': 0, 'raised': 0, 'same_result': 0, 'range_reads_seen': 0, 'order_runs': 0,
-                'inflight_max': 0, 'pairs': 0, 'construct_faults': 0}
+                'inflight_max': 0, 'pairs': 0, 'construct_faults': 0, 'retries_after_fault': 0, 'retries_ok': 0}
     # ---- fault-free reference
     h = handle()
     r = SgzReader(h)
@@ -210,6 +213,10 @@ def run_case(case, ctx):
         if truth_of[repr(op)][0] != 'ok':
             return {'violations': [], 'inconclusive': 'fault-free %s%s does not return (%s)' % (op[0], op[1], truth_of[repr(op)][:2]),
                     'counters': counters}
+
+    # what is asked of the same reader after a failed call (besides repeating it): the other header / trace accessors
+    hdr_like = [o for o in ops if o[0] in ('gen_trace_header', 'get_tracefield_values', 'get_trace')]
+    probe_after = {name: [o for o in hdr_like if o[0] != name][:3] for name in ('gen_trace_header', 'get_tracefield_values', 'get_trace')}
 
     def judge(op, got, faults, injected, what):
         counters['fault_runs'] += 1
@@ -240,6 +247,24 @@ def run_case(case, ctx):
                 r = SgzReader(h)
                 got = run_op_guarded(r, op)
                 judge(op, got, faults, h.injected, 'single')
+                if got[0] == 'exc' and kind in ('exc', 'empty'):
+                    # the fault was transient: the same call repeated on the SAME reader now meets no fault; it may raise
+                    # again but must never return anything but the true result (no state left behind by the failed call)
+                    got2 = run_op_guarded(r, op)
+                    counters['retries_after_fault'] += 1
+                    if got2[0] == 'breach' or (got2[0] == 'ok' and got2 != truth_of[repr(op)]):
+                        bad.append({'sig': '%s:%s:retry-after-%s-fault-returned-wrong-data' % (backend, op[0], kind),
+                                    'detail': '%s%s failed with fault %s; the fault-free repeat on the same reader returned a result differing from the true one'
+                                              % (op[0], op[1:], faults)})
+                    elif got2[0] == 'ok':
+                        counters['retries_ok'] += 1
+                    if probe_after.get(op[0]):
+                        for op3 in probe_after[op[0]]:
+                            got3 = run_op_guarded(r, op3)
+                            if got3[0] == 'breach' or (got3[0] == 'ok' and got3 != truth_of[repr(op3)]):
+                                bad.append({'sig': '%s:%s:after-failed-%s:returned-wrong-data' % (backend, op3[0], op[0]),
+                                            'detail': '%s%s failed with fault %s; then %s%s on the same reader returned a result differing from the true one'
+                                                      % (op[0], op[1:], faults, op3[0], op3[1:])})
                 finish(h, r)
         # ---- pairs
         if n >= 2:
@@ -352,6 +377,8 @@ def finalize(tier, cases, results, counters, strata):
             reasons.append('required stratum not hit: ' + s)
     if counters.get('injections', 0) == 0:
         reasons.append('no fault was injected')
+    if counters.get('retries_ok', 0) == 0:
+        reasons.append('no fault-free repeat of a failed call was observed to succeed')
     if counters.get('contract_evaluations', 0) == 0:
         reasons.append('native-boundary contract never evaluated')
     if counters.get('inflight_max_max', 0) < 2:
